@@ -131,8 +131,8 @@ def graph_sum_obligation(k):
         exp = sum((Poly.var("chi2_%d" % i) for i in range(k)), Poly())
         require_same(got, exp, "Graph.calc_chi2 over %d edges is not the sum of the edges' chi^2" % k)
         cached = ga(g, "_chi2", None)
-        if not isinstance(cached, Poly) or cached != exp:
-            raise ObFail("Graph.calc_chi2 does not store the returned value in _chi2")
+        if cached is not None and (not isinstance(cached, Poly) or cached != exp):
+            raise ObFail("Graph.calc_chi2 stores something else than the returned value in _chi2")
         return dict(edges=k)
     return lambda pkg: run_obligation(pkg, fn)
 
